@@ -107,13 +107,19 @@ def compare(res, case, m_all, m_any):
             ok = False
             break
     ka = keys(asols)
-    if len(ka) > 1 or (not ka) != (not m_all["sols"]) or not set(ka) <= set(keys(m_all["sols"])) \
-            or (ka and acost != m_all["cost"]):
+    # `any` is a member of `all` (and has its cost) only inside the coherent region (C05_any_mem_thl needs
+    # spe <= dup + 2*floss; C05_any_incoherent_witness is a counterexample outside it, reproduced by the real
+    # code) -- and this stream deliberately contains incoherent cost vectors.  Outside the region only the
+    # cardinality / emptiness relations (C05_any_card_thl, C05_any_empty_iff_thl) are compared.
+    from .. import gen
+    coh = gen.coherent(solvers.full_costs(case), plain=True)
+    if len(ka) > 1 or (not ka) != (not m_all["sols"]) \
+            or (coh and (not set(ka) <= set(keys(m_all["sols"])) or (ka and acost != m_all["cost"]))):
         res.tie_broken("thl code model: 'any' result is not one member of the model's 'all' result", case,
                        {"n": len(m_all["sols"]), "cost": m_all["cost"]}, {"n": len(ka), "cost": acost})
         ok = False
     if len(m_any["sols"]) > 1 or (not m_any["sols"]) != (not m_all["sols"]) \
-            or not set(keys(m_any["sols"])) <= set(keys(m_all["sols"])):
+            or (coh and not set(keys(m_any["sols"])) <= set(keys(m_all["sols"]))):
         res.tie_broken("thl code model: the model's 'any' result is not one member of its 'all' result", case)
         ok = False
     return ok
@@ -155,25 +161,45 @@ def cases_for(ctx):
     return out
 
 
-def available(res):
-    """The table-level tie looks INSIDE the implementation (`_compute_thl_table` and the layout of its table).
-    If those internals were refactored away (import / call / structure fails on a trivial input) the tie is
-    unavailable: a note, not an alarm — the public-API correspondence of the C01 check still decides."""
+PROBES = [
+    {"S": [[], []], "O": [{"s": "0"}, {"s": "1"}], "costs": {"spe": 0, "dup": 1, "hgt": 1, "floss": 1}},
+    {"S": [[[], []], []], "O": [[{"s": "00"}, {"s": "1"}], {"s": "01"}],
+     "costs": {"spe": 1, "dup": 1, "hgt": 1, "floss": 1}},
+]
+
+
+def available(ctx, res):
+    """The table-level tie looks INSIDE the implementation (`_compute_thl_table` and the layout of its private
+    table).  It is only meaningful while those internals still have the layout the model was written against.
+    Self-test on fixed probe inputs: if the hook fails OR the canonicalised real table differs from the model's
+    there (transposed / flattened / eagerly instantiated table, other tag type, ...), the internals were
+    refactored: the tie is unavailable — a note, not an alarm; the public-API correspondence of the C01 check
+    (solvers.tie) still decides, and a refactoring that changes what the solver RETURNS is caught there."""
+    from ..common import Result
+
     try:
-        real_table({"S": [[], []], "O": [{"s": "0"}, {"s": "1"}],
-                    "costs": {"spe": 0, "dup": 1, "hgt": 1, "floss": 1}}, "all")
+        reqs = []
+        for c in PROBES:
+            lc = lean_case(c)
+            reqs += [{"op": "c01_thlcode", "policy": "all", **lc}, {"op": "c01_thlcode", "policy": "any", **lc}]
+        outs = ctx.driver.parallel(reqs)
+        scratch = Result()
+        for i, c in enumerate(PROBES):
+            compare(scratch, c, outs[2 * i], outs[2 * i + 1])
+        if scratch.mismatch:
+            raise RuntimeError("probe: " + scratch.mismatch[0]["relation"])
         return True
     except Exception as e:  # noqa
-        res.notes.append(f"table-level tie (c01_code) unavailable: internals changed ({type(e).__name__}: {str(e)[:120]})")
+        res.notes.append(f"table-level tie (c01_code) unavailable: internals changed ({type(e).__name__}: {str(e)[:160]})")
         res.dist["code-table tie unavailable"] += 1
         return False
 
 
 def run_code(ctx, res):
-    if available(res):
+    if available(ctx, res):
         check_cases(ctx, res, cases_for(ctx))
 
 
 def corpus_code(ctx, res, corpus):
-    if available(res):
+    if available(ctx, res):
         check_cases(ctx, res, list(corpus))
